@@ -441,9 +441,9 @@ DRIVE = {
     "bakeBPACERunB": D({"pwd_len": 4}, 1, auth=["ERR_ANY"], tamper=["msg1", "msg2", "pwd", "pwdkca", "msg1kca"], hand=RUNHAND, extra={"pwd_len": [0, 1, 8]}),
     # ---- bpki
     "bpkiPrivkeyWrap": D({"privkey_len": 32, "pwd_len": 8, "iter": 10000}, 1, extra={"pwd_len": [0, 1]}),
-    "bpkiPrivkeyUnwrap": D({"pwd_len": 8, "epki_len": 160}, 1, auth=["ERR_ANY"], tamper=["pwd", "ct", "last", "der"]),
+    "bpkiPrivkeyUnwrap": D({"pwd_len": 8, "epki_len": 160}, 1, auth=["ERR_ANY"], tamper=["pwd", "ct", "last", "der", "kind"]),
     "bpkiShareWrap": D({"share_len": 33, "pwd_len": 8, "iter": 10000}, 1, flags=["ok_num"]),
-    "bpkiShareUnwrap": D({"pwd_len": 8, "epki_len": 160}, 1, auth=["ERR_ANY"], tamper=["pwd", "ct", "last"]),
+    "bpkiShareUnwrap": D({"pwd_len": 8, "epki_len": 160}, 1, auth=["ERR_ANY"], tamper=["pwd", "ct", "last", "kind"]),
     "bpkiCSRUnwrap": D({"csr_len": 382}, 0, auth=["ERR_ANY"], tamper=["sig", "body"]),
     "bpkiCSRRewrap": D({"csr_len": 382, "privkey_len": 32}, 1),
     # ---- btok CVC
